@@ -17,8 +17,14 @@ import (
 
 // generator switches (they only influence what Next draws, never what Apply does)
 var (
-	// F11 of DESIGN section 5: asset removal / deactivation / limit lowering while transfers are open. OFF by default.
+	// F11 of DESIGN section 5 (asset removal / deactivation / limit lowering while transfers are open is a governance
+	// precondition).  Such parameter changes ARE generated; what the generator leaves out by construction while the
+	// parameters are incompatible with the live state is (a) a claim with the right secret of an open incoming
+	// transfer whose asset is delisted or outside its limits (C03 mode) and (b) a restart (the module's genesis
+	// import refuses such a state).  VERIF_C03_F11=1 lifts both exclusions.
 	switchF11 = os.Getenv("VERIF_C03_F11") != ""
+	// only compatible parameter changes (the behaviour before round 5)
+	compatOnly = os.Getenv("VERIF_C03_COMPAT_PARAMS") != ""
 	// do not draw the htlc module account as recipient of a contract (see finding C04/escrow-keeps-funds-claimed-to-escrow)
 	avoidToEscrow = os.Getenv("VERIF_C04_AVOID_TO_ESCROW") != ""
 )
@@ -117,11 +123,21 @@ func (m *machine) Next(t *rapid.T) hOp {
 		}
 	}
 	open := m.openContracts()
+	openHTLT := 0
+	for _, ct := range open {
+		if ct.transfer {
+			openHTLT++
+		}
+	}
+	// a restart: anywhere in the history, preferably (once) while cross-chain transfers are pending
+	if (openHTLT > 0 && m.n.reimports == 0 && chance(t, "reimport/first", 7)) || chance(t, "reimport/any", 2) {
+		return m.genReimport()
+	}
 	var w [6]int // plain, htlt, dup, claim, block, params
 	if m.c03() {
-		w = [6]int{24, 12, 5, 30, 25, 4}
+		w = [6]int{24, 12, 5, 29, 25, 5}
 	} else {
-		w = [6]int{5, 32, 2, 30, 25, 6}
+		w = [6]int{5, 31, 2, 29, 25, 8}
 	}
 	k := pct(t, "kind")
 	kind := 0
@@ -134,7 +150,7 @@ func (m *machine) Next(t *rapid.T) hOp {
 	if kind <= 2 && len(m.contracts) >= maxContracts {
 		kind = 3
 	}
-	if kind == 2 && len(m.contracts) == 0 {
+	if kind == 2 && len(m.contracts)+len(m.forgotten) == 0 {
 		kind = 0
 	}
 	if kind == 3 && len(open) == 0 && (len(m.contracts) == 0 || chance(t, "claim->create", 60)) {
@@ -160,6 +176,13 @@ func (m *machine) Next(t *rapid.T) hOp {
 	default:
 		return m.genParamsChange(t)
 	}
+}
+
+func (m *machine) genReimport() hOp {
+	if !switchF11 && m.importNeedsCompatibleParams() {
+		return hOp{Kind: "skip", Note: "skipped:reimport-with-incompatible-params"}
+	}
+	return hOp{Kind: "reimport"}
 }
 
 func (m *machine) openContracts() []*contract {
@@ -267,43 +290,66 @@ func (m *machine) currentAssets() []assetJ {
 
 func (m *machine) genParamsChange(t *rapid.T) hOp {
 	as := m.currentAssets()
-	if len(as) == 1 && chance(t, "add-asset", 40) {
-		other := htltDenoms[0]
-		if as[0].Denom == other {
-			other = htltDenoms[1]
+	var absent, never []string
+	for _, d := range htltDenoms {
+		switch a, ok := m.assets[d]; {
+		case !ok:
+			never = append(never, d)
+		case !a.present:
+			absent = append(absent, d)
 		}
-		return hOp{Kind: "params", Assets: append(as, m.genAsset(t, other))}
+	}
+	place := func(a assetJ) hOp {
+		if chance(t, "list/front", 30) {
+			return hOp{Kind: "params", Assets: append([]assetJ{a}, as...)}
+		}
+		return hOp{Kind: "params", Assets: append(as, a)}
+	}
+	// list a delisted asset again (a separate, later update than the one that removed it): with the parameters
+	// it had, or with new ones
+	if len(absent) > 0 && (len(as) == 0 || chance(t, "relist", 50)) {
+		d := pick(t, "relist/which", absent)
+		if chance(t, "relist/same-params", 55) {
+			return place(m.assets[d].raw)
+		}
+		return place(m.genAsset(t, d))
+	}
+	// an asset listed for the first time, whatever is open for the others
+	if len(never) > 0 && (len(as) == 0 || chance(t, "add-asset", 35)) {
+		return place(m.genAsset(t, pick(t, "add/which", never)))
+	}
+	if len(as) == 0 {
+		return hOp{Kind: "params", Assets: []assetJ{}}
 	}
 	i := uni(t, "which-asset", len(as))
+	if chance(t, "which-asset/live", 60) { // prefer an asset that is in use
+		for j := range as {
+			if m.assets[as[j].Denom].live() {
+				i = j
+				if m.assets[as[j].Denom].busy() {
+					break
+				}
+			}
+		}
+	}
 	a := as[i]
 	am := m.assets[a.Denom]
-	busy := am.in.Sign() > 0 || am.out.Sign() > 0
 	committed := sum(am.cur, am.in) // what the total limit must cover
 	windowUse := sum(am.tlc, am.in) // what the time-based limit must cover
-	if switchF11 && chance(t, "f11", 50) {
-		switch uni(t, "f11/kind", 5) {
-		case 0: // remove the asset
-			as = append(as[:i:i], as[i+1:]...)
-			return hOp{Kind: "params", Assets: as}
-		case 1: // deactivate, whatever is open
-			a.Active = !a.Active
-		case 2: // lower the limit below what is committed
-			nl := between(t, "f11/limit", bi(0), committed)
-			a.Limit = nl.String()
-			if gen.BigOf(a.TBL).Cmp(nl) > 0 {
-				a.TBL = nl.String()
-			}
-		case 3: // lower the time-based limit below what the window already carries
-			a.TimeLimited = true
-			a.TBL = between(t, "f11/tbl", bi(0), minBig(windowUse, gen.BigOf(a.Limit))).String()
-		default: // empty parameter list
-			return hOp{Kind: "params", Assets: []assetJ{}}
-		}
+	limit := gen.BigOf(a.Limit)
+	if !a.Active && chance(t, "reactivate", 50) {
+		a.Active = true
 		as[i] = a
 		return hOp{Kind: "params", Assets: as}
 	}
-	limit := gen.BigOf(a.Limit)
-	switch uni(t, "change", 8) {
+	change := uni(t, "change", 14)
+	if compatOnly && change >= 8 {
+		change -= 8
+		if change == 7 && am.busy() {
+			change = 6
+		}
+	}
+	switch change {
 	case 0: // move the limit, never below what is committed nor below the time-based limit
 		floor := committed
 		if tb := gen.BigOf(a.TBL); tb.Cmp(floor) > 0 {
@@ -336,14 +382,26 @@ func (m *machine) genParamsChange(t *rapid.T) hOp {
 		a.Fee = bi(int64(pick(t, "fee", []int{0, 1, 2, 5}))).String()
 	case 5:
 		a.MinLock, a.MaxLock = m.genLocks(t)
-	case 6:
+	case 6, 8:
 		a.Deputy = 3 - a.Deputy
-	default:
-		if !busy {
-			a.Active = !a.Active
-		} else {
-			a.Deputy = 3 - a.Deputy
+	case 7, 9: // (de)activate, whatever is open
+		a.Active = !a.Active
+	case 10, 11: // delist the asset: its supply record and its open transfers stay behind
+		as = append(as[:i:i], as[i+1:]...)
+		return hOp{Kind: "params", Assets: as}
+	case 12: // lower the limit below what is committed
+		nl := between(t, "low/limit", bi(0), committed)
+		a.Limit = nl.String()
+		if gen.BigOf(a.TBL).Cmp(nl) > 0 {
+			a.TBL = nl.String()
 		}
+	default:
+		if chance(t, "low/empty-list", 25) { // delist everything at once
+			return hOp{Kind: "params", Assets: []assetJ{}}
+		}
+		// lower the time-based limit below what the window already carries
+		a.TimeLimited = true
+		a.TBL = between(t, "low/tbl", bi(0), minBig(windowUse, limit)).String()
 	}
 	as[i] = a
 	return hOp{Kind: "params", Assets: as}
@@ -610,7 +668,11 @@ func (m *machine) genHTLT(t *rapid.T) hOp {
 }
 
 func (m *machine) genDup(t *rapid.T) hOp {
-	o := m.contracts[uni(t, "dup/of", len(m.contracts))]
+	pool := m.contracts
+	if len(m.forgotten) > 0 && (len(pool) == 0 || chance(t, "dup/forgotten", 40)) {
+		pool = m.forgotten // closed contracts a restart dropped: their ids are free again
+	}
+	o := pool[uni(t, "dup/of", len(pool))]
 	op := hOp{Kind: "create", Sender: o.senderIdx, To: o.toIdx, HashLock: o.hashLock, Timestamp: o.ts, Transfer: o.transfer, Secret: o.secret}
 	for _, c := range o.coins {
 		op.Coins = append(op.Coins, coinJ{c.denom, c.amt.String()})
@@ -648,6 +710,8 @@ func (m *machine) genClaim(t *rapid.T, open []*contract) hOp {
 		ct = pick(t, "claim/racing", racing)
 	case len(open) > 0 && s < 80:
 		ct = pick(t, "claim/open", open)
+	case len(m.forgotten) > 0 && s >= 80 && s < 86:
+		ct = pick(t, "claim/forgotten", m.forgotten)
 	case len(m.contracts) > 0 && s < 95:
 		ct = pick(t, "claim/any", m.contracts)
 	}
@@ -660,7 +724,7 @@ func (m *machine) genClaim(t *rapid.T, open []*contract) hOp {
 	switch s := pct(t, "claim/secret"); {
 	case s < 68:
 		op.Secret = ct.secret
-	case s < 83:
+	case s < 83 && len(m.contracts) > 0:
 		op.Secret = m.contracts[uni(t, "claim/other", len(m.contracts))].secret
 	case s < 96:
 		op.Secret = m.genSecret(t)
@@ -669,6 +733,16 @@ func (m *machine) genClaim(t *rapid.T, open []*contract) hOp {
 	}
 	if len(op.Secret) == 0 {
 		op.Secret = poolSecret(0)
+	}
+	// C03 mode: completing an incoming transfer needs room under the asset's limits; after an incompatible
+	// parameter change (F11, a governance precondition) the right secret is not presented
+	if m.c03() && !switchF11 && ct.state == stOpen && ct.transfer && ct.dir == dirIn && m.byID[ct.id] == ct {
+		a := m.assets[ct.coins[0].denom]
+		if sec, err := hex.DecodeString(op.Secret); err == nil && len(sec) == 32 && refHashLock(sec, ct.ts) == ct.hashLock &&
+			(a == nil || !a.present || !a.withinLimits()) {
+			op.Secret = drawBytes32(t, "claim/withheld")
+			op.Note = "skipped:C03/right-claim-rejected-asset-outside-limits"
+		}
 	}
 	return op
 }
